@@ -286,6 +286,9 @@ func runK7pair(r *rng, n int) {
 		go func(i int) {
 			defer wg.Done()
 			defer func() { <-sem }()
+			if tooManyHangs() {
+				return
+			}
 			cr := &rng{s: seeds[i]}
 			idx := (start + i) % total
 			a := k7ops[idx/2/len(k7ops)]
@@ -386,13 +389,16 @@ func k7pairOnce(r *rng, a, b k7op, cross bool, wait time.Duration) ([3]int, bool
 			answered++
 		}
 	}
+	if answered < 2 {
+		noteHang()
+	}
 	return [3]int{overlap, entered, answered}, true
 }
 
 // ---- K7 flush -----------------------------------------------------------------------------------
 
 func runK7flush(r *rng, n int) {
-	for i := 0; i < n; i++ {
+	for i := 0; i < n && !tooManyHangs(); i++ {
 		s := newK7(r, 1)
 		if s.walk(0, 0, 1, p9.ModeRegular|0644, "f") < 0 || s.call(0, 12, map[string]interface{}{"fid": uint64(1), "Flags": uint64(2)}) != 13 ||
 			s.walk(0, 0, 2, p9.ModeRegular|0644, "o") < 0 {
@@ -482,6 +488,9 @@ func runK7flush(r *rng, n int) {
 		if chained {
 			ch = 1
 		}
+		if rflush == 0 || rvictim == 0 {
+			noteHang()
+		}
 		count("flushed:" + k.meth)
 		emit("k7flush victim=%s chained=%d => early=%d idle=%d own=%d other=%d rflush=%d rvictim=%d dup=%d", k.meth, ch, early, idle, own, oth, rflush, rvictim, dup)
 	}
@@ -490,7 +499,7 @@ func runK7flush(r *rng, n int) {
 // ---- K7 tags: bursts with adversarial tags, reply accounting, frame contiguity --------------
 
 func runK7tags(r *rng, n int) {
-	for i := 0; i < n; i++ {
+	for i := 0; i < n && !tooManyHangs(); i++ {
 		s := newK7w(r, 1, r.chance(2, 3))
 		for f := uint64(1); f <= 4; f++ {
 			s.walk(0, 0, f, p9.ModeRegular|0644, fmt.Sprintf("f%d", f))
@@ -563,6 +572,9 @@ func runK7tags(r *rng, n int) {
 			}
 		}
 		s.close()
+		if missing > 0 {
+			noteHang()
+		}
 		count(fmt.Sprintf("burst<=%d", (burst+15)/16*16))
 		emit("k7tags burst=%d gated=%d => missing=%d dup=%d unasked=%d badframe=%d extra=%d", len(tags), len(gates), missing, dup, unasked, badframe, extra)
 	}
@@ -570,7 +582,7 @@ func runK7tags(r *rng, n int) {
 
 // runK7reuse: a request whose tag is still in flight is not served; the tag is free after its reply.
 func runK7reuse(r *rng, n int) {
-	for i := 0; i < n; i++ {
+	for i := 0; i < n && !tooManyHangs(); i++ {
 		s := newK7(r, 1)
 		s.walk(0, 0, 1, p9.ModeRegular|0644, "a")
 		g := s.g.arm("GetAttr", 0)
@@ -610,7 +622,7 @@ func runK7reuse(r *rng, n int) {
 // runK7scen: D9 (rename in one directory while the last other reference goes away), D13 (a Close
 // blocked in the backend must not stall the connection), D8 (two Tlopen on one fid).
 func runK7scen(r *rng, n int) {
-	for i := 0; i < n; i++ {
+	for i := 0; i < n && !tooManyHangs(); i++ {
 		// D13: clunk fid 1 blocks in Close; a getattr on another fid of the same connection proceeds
 		{
 			s := newK7(r, 1)
